@@ -73,6 +73,10 @@ def _expand(gen):
     pat = hashlib.md5(seed.encode()).digest()
     n = int(n)
     buf = bytearray((pat * (n // 16 + 1))[:n])
+    for k in range(n // 4096 + 1):  # every 4 KiB page distinct
+        off = k * 4096
+        if off + 8 <= n:
+            buf[off:off + 8] = bytes(a ^ b for a, b in zip(buf[off:off + 8], k.to_bytes(8, "little")))
     for op in ops[1:]:
         if op[0] == "f":
             p = int(op[1:])
@@ -311,6 +315,10 @@ def generate(rng, tier):
     # a few symbolic-content cases in every tier (keeps that path of both drivers exercised)
     for i in range(12 if tier == "quick" else 200):
         cases.append(_random_case(rng, symf, [0, 1, 1023, 1024, 1025, 4096, 32767, 32768, 32769, 65535, 65536, 65537]))
+    # blocks longer than compareReaderWithBuf's 1 MiB buffer (several reads per comparison)
+    for n in ((1 << 20) + 1, (2 << 20) + 1):
+        for scen in (0, 3, 5):
+            cases.append(_boundary_case(rng, symf, n, scen + 6 * rng.randrange(4)))
     if tier != "quick":
         mids = [32767, 32768, 32769, 65535, 65536, 65537, (1 << 18) - 1, 1 << 18, (1 << 18) + 1,
                 (1 << 20) - 1, 1 << 20, (1 << 20) + 1, (2 << 20) + 1]
